@@ -738,7 +738,7 @@ def _edited(t: int, kind: int, pos: int, ch: str) -> str:
 
 @cond(
     pre=["0 <= pos <= 44", "len(ch) == 1", "in_alpha(ch, EDIT_ALPHA)"],
-    timeout=2400,
+    timeout=1200,
     tiers=("thorough",),
     shard={"t": list(range(len(VALID))), "kind": [0, 1]},
     covers="single-edit mutants of a valid corpus: one character replaced by, or inserted as, any character of the Liquid-biased alphabet at any position (the character is a solver variable): Environment.from_string + render raise only LiquidError, renderable, with a position inside the source",
